@@ -32,8 +32,15 @@ class Real:
         self.r = Bw64Reader(io.BytesIO(data))
         self.bitdepth, self.channels, self.frames = bitdepth, channels, frames
         self.scale = float(2 ** (bitdepth - 1) - 1)
-        self.A = channels * bitdepth // 8
-        self.data_off = data.find(b"data", 12) + 8  # harness-side knowledge of its own file
+        # the constants the cursor methods consult, read from the opened reader itself (not recomputed here)
+        ci = self.r._chunks[b"data"]
+        self.A = int(self.r._formatInfo.blockAlignment)
+        self.data_off = int(ci.position.data)
+        self.cfg = (self.data_off, self.A, int(ci.size), int(self.r._file_len))
+        # `__len__` divides ds64.dataSize when there is a ds64 chunk; the model has one `size` for both uses
+        self.len_bytes = int(self.r._ds64.dataSize) if self.r._ds64 else int(ci.size)
+        self.end_ok = int(ci.position.end) == self.data_off + int(ci.size)
+        self.gens = []
 
     def _range(self, block):
         block = np.asarray(block)
@@ -48,7 +55,8 @@ class Real:
         return (first, k)
 
     def op(self, op):
-        """Return canonical output: ('u',) ('E',) ('p',c) ('b',first,count) ('B',[(first,count)..]) or ('X',exc type)."""
+        """Return canonical output: ('u',) ('E',) ('p',c) ('b',first,count) ('B',[(first,count)..]) ('m',i) ('k',first,count)
+        ('S',) or ('X',exc type)."""
         try:
             if op[0] == "s":
                 try:
@@ -67,6 +75,15 @@ class Real:
                     if n > self.frames + 2:
                         return ("X", "iter-does-not-terminate")
                 return ("B", out)
+            if op[0] == "g":
+                self.gens.append(self.r.iter_sample_blocks(op[1]))
+                return ("m", len(self.gens) - 1)
+            if op[0] == "n":
+                try:
+                    b = next(self.gens[op[1]])
+                except StopIteration:
+                    return ("S",)
+                return ("k",) + self._range(b)
         except Exception as e:  # anything else escaping is an observable failure
             return ("X", type(e).__name__)
         raise AssertionError(op)
@@ -75,8 +92,19 @@ class Real:
 def spec_run(N, ops):
     """Independent list-plus-cursor specification (written from the property text)."""
     c, outs = 0, []
+    gens = []  # [block size, finished]
     clamp = lambda x: max(0, min(N, x))
     for op in ops:
+        if op[0] == "g":
+            gens.append([op[1], False]); outs.append(("m", len(gens) - 1)); continue
+        if op[0] == "n":
+            g = gens[op[1]]
+            if g[1] or c == N:      # a finished generator stays finished wherever the cursor goes afterwards
+                g[1] = True; outs.append(("S",))
+            else:
+                e = min(c + g[0], N)
+                outs.append(("k", c if e > c else "-", e - c)); c = e
+            continue
         if op[0] == "s":
             if op[2] == 0:
                 c = clamp(op[1]); outs.append(("u",))
@@ -127,6 +155,10 @@ def parse_model(line, data_off, A):
         elif w[0] == "p": outs.append(("p", int(w[1])))
         elif w[0] == "b": outs.append(("b",) + fr(w[1], w[2]))
         elif w[0] == "B": outs.append(("B", [fr(*x.split(",")) for x in w[1:]]))
+        elif w[0] == "m": outs.append(("m", int(w[1])))
+        elif w[0] == "k": outs.append(("k",) + fr(w[1], w[2]))
+        elif w[0] == "S": outs.append(("S",))
+        else: outs.append(("unparsed", tok))
     return outs, int(pos)
 
 
@@ -139,13 +171,25 @@ def alphabet(N):
     return ops
 
 
+# every exhaustive sequence starts by making two generators (no effect on the cursor) so that `next` on either can
+# be interleaved with everything else
+GEN_PREFIX = (("g", 2), ("g", 1))
+GEN_ALPHA = [("n", 0), ("n", 1)]
+
+
 def random_ops(rng, N, length):
     ops = []
+    ngen = 0
     for _ in range(length):
         k = rng.random()
-        if k < 0.45:
+        if k < 0.12:
+            ops.append(("g", rng.choice([0, 1, 1, 2, 3, N + 1])))   # block size 0 is fine for next(), only exhausting it hangs
+            ngen += 1
+        elif k < 0.3 and ngen:
+            ops.append(("n", rng.randrange(ngen)))
+        elif k < 0.45:
             ops.append(("s", rng.randint(-N - 3, N + 3), rng.choice([0, 0, 1, 1, 2, 2, rng.randint(3, 9)])))
-        elif k < 0.6:
+        elif k < 0.65:
             ops.append(("t",))
         elif k < 0.9:
             ops.append(("r", rng.choice([0, 1, 2, 3, rng.randint(0, N + 2)])))
@@ -155,28 +199,100 @@ def random_ops(rng, N, length):
     return ops
 
 
+def make_ragged(fp, r):
+    """A file whose data chunk holds the frames of make_file(fp) followed by r stray bytes (0 < r < blockAlign): the
+    chunk size is not a whole number of frames. The writer never produces this; the reader accepts it."""
+    import struct
+    bd, ch, n, bw = fp
+    data = bytearray(make_file(bd, ch, n, bw))
+    A = ch * bd // 8
+    i = data.find(b"data", 12)
+    body = bytes(data[i + 8:i + 8 + n * A]) + bytes(0xE1 + j for j in range(r))
+    new = bytearray(data[:i + 8]) + body + (b"\0" if len(body) & 1 else b"")
+    if new[:4] == b"BW64":
+        new[20:28] = struct.pack("<Q", len(new) - 8)
+        new[28:36] = struct.pack("<Q", len(body))
+    else:
+        new[4:8] = struct.pack("<I", len(new) - 8)
+        new[i + 4:i + 8] = struct.pack("<I", len(body))
+    return bytes(new)
+
+
+class RealBytes(Real):
+    """As Real, but a returned block is identified by the BYTES it was decoded from (re-encoded from the sample codes),
+    so that reads that do not start on a frame boundary can be compared with the model's byte ranges."""
+
+    def _range(self, block):
+        from .c16 import codes_to_bytes
+        block = np.asarray(block)
+        if block.shape[0] == 0:
+            return ("", 0)
+        codes = np.rint(block * self.scale).astype(np.int64).reshape(-1)
+        return (codes_to_bytes(codes, self.bitdepth).hex(), int(block.shape[0]))
+
+
+def parse_model_bytes(line, data, A):
+    body, pos = line.rsplit("|", 1)
+    outs = []
+    def fr(s, g):
+        s, g = int(s), int(g)
+        if g == 0:
+            return ("", 0)
+        if g % A:
+            return ("partial-frame:%d,%d" % (s, g), 0)
+        return (data[s:s + g].hex(), g // A)
+    for tok in body.split(";"):
+        w = tok.split()
+        if not w:
+            continue
+        if w[0] == "u": outs.append(("u",))
+        elif w[0] == "E": outs.append(("E",))
+        elif w[0] == "p": outs.append(("p", int(w[1])))
+        elif w[0] == "b": outs.append(("b",) + fr(w[1], w[2]))
+        elif w[0] == "B": outs.append(("B", [fr(*x.split(",")) for x in w[1:]]))
+        elif w[0] == "m": outs.append(("m", int(w[1])))
+        elif w[0] == "k": outs.append(("k",) + fr(w[1], w[2]))
+        elif w[0] == "S": outs.append(("S",))
+        else: outs.append(("unparsed", tok))
+    return outs, int(pos)
+
+
+THEOREMS = ("tell_spec", "seek_spec", "read_spec", "iter_refines", "specIter_tiles", "ops_refine", "open_at_zero",
+            "iter_model_tiles", "step_iter_tiles", "gnext_refines", "gops_refine", "drain_eq_iter",
+            "ragged_len", "ragged_not_cursor")
+
+
 class C18(Spec):
     pid = "C18"
     lean_targets = ("Earverif.Props.C18", "c18driver")
     props_module = "Earverif.Props.C18"
-    theorems = tuple(
-        "Earverif.Cursor." + t
-        for t in ("tell_spec", "seek_spec", "read_spec", "iter_refines", "specIter_tiles", "ops_refine", "open_at_zero")
-    )
+    theorems = tuple("Earverif.Cursor." + t for t in THEOREMS)
     trusted_base = (
         "model Earverif/Model/Bw64Cursor.lean is a hand transliteration of Bw64Reader.seek/tell/read/__len__/"
-        "iter_sample_blocks; BytesIO.seek/read/tell semantics are assumed as modelled by bufRead",
-        "PCM decoding of the bytes read is C16's subject; here a read is identified with the byte range handed to the decoder",
+        "iter_sample_blocks (eager `iter` and the resumable generator `gnext`); BytesIO.seek/read/tell semantics are "
+        "assumed as modelled by bufRead",
+        "the model's file constants (data offset, block alignment, data chunk size, file length) are read on every run "
+        "from the opened real reader (_chunks[b'data'].position.data/.size, formatInfo.blockAlignment, _file_len; "
+        "ds64.dataSize and position.end are checked to coincide with them), not recomputed by the harness",
+        "PCM decoding of the bytes read is C16's subject; here a read is identified with the byte range handed to the "
+        "decoder (C09's C09_samples_roundtrip composes the two for files the writer produced)",
     )
     assumptions = (
-        "operations within the quantifier: read(n) with n >= 0, iter_sample_blocks(bs) with bs >= 1 "
-        "(bs = 0 does not terminate in the real code; negative n reads to the end of the file)",
-        "data chunk size is a whole number of frames (true of every file the writer produces)",
+        "operations within the quantifier: read(n) with n >= 0, list(iter_sample_blocks(bs)) with bs >= 1 "
+        "(exhausting a generator with bs = 0 does not terminate in the real code; negative n reads to the end of the "
+        "file); generators consumed with next() may have bs >= 0",
+        "WF.hsize: the data chunk size is a whole number of frames (k.size = k.A * N) -- true of every file the writer "
+        "produces (C09_samples_roundtrip proves WF for them); for a ragged data chunk (size = A*N + r, 0 < r < A) the "
+        "cursor abstraction FAILS after any seek that lands on the chunk end: theorem ragged_not_cursor; such files are "
+        "kept out of the property's generators and run in a separate counted stream (model vs real reader at byte level)",
+        "WF.hfile: the data chunk lies inside the file (the reader's constructor rejects anything else, C17)",
     )
     rule = (
         "op sequences over generated files (bit depth x channels x frame count x RIFF/BW64): exhaustive over a "
-        "boundary alphabet up to a length bound, then seeded random longer sequences; a case is one (file, op "
-        "sequence); non-trivial = contains at least one seek and one read/iter; distinct by (file params, ops)"
+        "boundary alphabet (incl. next() on two generators made up front) up to a length bound, then seeded random "
+        "longer sequences that also create generators at random points and interleave next() with everything else; "
+        "a case is one (file, op sequence); non-trivial = contains at least one seek and one read/iter/next; "
+        "distinct by (file params, ops); ragged-data-chunk files: separate stream, byte-level model-vs-real only"
     )
 
     def files(self, ctx):
@@ -191,20 +307,31 @@ class C18(Spec):
         lines, metas = [], []
         for (bd, ch, n, bw), data, ops in batch:
             real = Real(data, bd, ch, n)
-            cfg = (real.data_off, real.A, n * real.A, len(data))
+            cfg = real.cfg          # from the opened reader
+            if real.len_bytes != cfg[2] or not real.end_ok:
+                ctx.disagree("reader constants: ds64.dataSize / position.end differ from _chunks[b'data'].size",
+                             {"file": (bd, ch, n, bw)}, cfg, (real.len_bytes, real.end_ok))
+            if cfg[2] != n * cfg[1]:
+                ctx.count("cfg:size-not-whole-frames")   # outside WF; never the case for writer-made files
+            ctx.count("cfg:from-reader")
             lines.append(op_line(cfg, ops))
             metas.append((real, cfg))
         outs = driver.run(lines)
         for ((fp, data, ops), (real, cfg), line) in zip(batch, metas, outs):
+            if line == "bad-op":
+                ctx.disagree("model rejects the request", {"file": fp, "ops": ops}, line, None)
+                continue
             model_outs, model_pos = parse_model(line, cfg[0], cfg[1])
             real_outs = [real.op(op) for op in ops]
             real_pos = cfg[0] + cfg[1] * int(real.r.tell())
-            nontriv = any(o[0] == "s" for o in ops) and any(o[0] in "ri" for o in ops)
-            ctx.case((fp, ops), nontriv, sample={"file": fp, "ops": ops, "outputs": real_outs} if nontriv else None)
+            nontriv = any(o[0] == "s" for o in ops) and any(o[0] in "rin" for o in ops)
+            ctx.case((fp, ops), nontriv, sample={"file": fp, "cfg": cfg, "ops": ops[:12], "outputs": real_outs[:12]} if nontriv else None)
             for o in ops:
                 ctx.count("op:" + o[0])
+            if any(o[0] == "n" for o in ops):
+                ctx.count("case:with-lazy-next")
             if model_outs != real_outs or model_pos != real_pos:
-                ctx.disagree("Bw64Reader vs Earverif.Cursor.run", {"file": fp, "ops": ops},
+                ctx.disagree("Bw64Reader vs Earverif.Cursor.grun", {"file": fp, "ops": ops},
                              (model_outs, model_pos), (real_outs, real_pos))
             else:
                 ctx.validated()
@@ -212,7 +339,8 @@ class C18(Spec):
             self._predicate(ctx, fp, ops, real_outs)
 
     def _predicate(self, ctx, fp, ops, real_outs):
-        ok_ops = all(not (o[0] == "r" and o[1] < 0) and not (o[0] == "i" and o[1] < 1) for o in ops)
+        ok_ops = all(not (o[0] == "r" and o[1] < 0) and not (o[0] == "i" and o[1] < 1) and not (o[0] == "g" and o[1] < 0)
+                     for o in ops)
         if not ok_ops:
             return
         want, _ = spec_run(fp[2], ops)
@@ -224,17 +352,61 @@ class C18(Spec):
             ctx.hit("reader output differs from cursor spec", {"file": fp, "ops": ops[: i + 1]},
                     {"expected": want[i], "got": real_outs[i], "op_index": i}, tags)
 
+    def _ragged(self, ctx, driver):
+        """Files whose data chunk is not a whole number of frames (outside WF.hsize / outside the property): the Lean
+        model (an exact transliteration whatever the size) against the real reader at BYTE level, and a count of how
+        often the real reader then deviates from the frame-cursor specification (what `ragged_not_cursor` proves)."""
+        rng = ctx.rng
+        files = [((16, 2, 3, False), 2), ((24, 1, 2, False), 1), ((24, 2, 2, True), 5), ((32, 1, 3, False), 3),
+                 ((16, 1, 4, True), 1)]
+        batch = []
+        for fp, r in files:
+            data = make_ragged(fp, r)
+            alpha = alphabet(fp[2]) + GEN_ALPHA
+            seqs = [GEN_PREFIX + ops for ops in itertools.product(alpha, repeat=2)] if not ctx.quick else []
+            seqs += [GEN_PREFIX + tuple(rng.choice(alpha) for _ in range(rng.randint(2, 6))) for _ in range(60 if ctx.quick else 400)]
+            seqs.append(GEN_PREFIX + (("s", 0, 2), ("s", -1, 1), ("t",), ("r", 1)))     # the sequence of ragged_not_cursor
+            for ops in seqs:
+                ops = tuple(o for o in ops if not (o[0] == "r" and o[1] < 0)) + (("t",),)
+                batch.append((fp, r, data, ops))
+        lines, metas = [], []
+        for fp, r, data, ops in batch:
+            real = RealBytes(data, fp[0], fp[1], fp[2])
+            lines.append(op_line(real.cfg, ops))
+            metas.append(real)
+        outs = driver.run(lines)
+        for (fp, r, data, ops), real, line in zip(batch, metas, outs):
+            cfg = real.cfg
+            ctx.count("ragged:case")
+            if cfg[2] != fp[2] * cfg[1] + r:
+                ctx.disagree("ragged file: reader's data size", {"file": fp, "stray": r}, fp[2] * cfg[1] + r, cfg[2])
+                continue
+            model_outs, model_pos = parse_model_bytes(line, data, cfg[1])
+            real_outs = [real.op(op) for op in ops]
+            real_pos = int(real.r._buffer.tell())
+            ctx.case(("ragged", fp, r, ops), True)
+            if model_outs != real_outs or model_pos != real_pos:
+                ctx.disagree("Bw64Reader vs Earverif.Cursor.grun on a ragged data chunk (byte level)",
+                             {"file": fp, "stray_bytes": r, "ops": ops}, (model_outs, model_pos), (real_outs, real_pos))
+            else:
+                ctx.validated()
+            # informational: does the real reader still look like a cursor over the N whole frames?
+            fr = Real(data, fp[0], fp[1], fp[2])
+            want, _ = spec_run(fp[2], ops)
+            got = [fr.op(op) for op in ops]
+            ctx.count("ragged:real-reader-%s-cursor-spec" % ("agrees-with" if want == got else "DEVIATES-from"))
+
     def correspond(self, ctx):
         driver = Driver("c18driver", "Earverif.Driver.C18")
         maxlen = 2 if ctx.quick else 3
         batch = []
         for fp in self.files(ctx):
             data = make_file(*fp)
-            alpha = alphabet(fp[2])
+            alpha = alphabet(fp[2]) + GEN_ALPHA
             for L in range(1, maxlen + 1):
                 for ops in itertools.product(alpha, repeat=L):
-                    # observe the cursor after every sequence
-                    batch.append((fp, data, tuple(ops) + (("t",),)))
+                    # two generators exist from the start; observe the cursor after every sequence
+                    batch.append((fp, data, GEN_PREFIX + tuple(ops) + (("t",),)))
         nrand = 300 if ctx.quick else 6000
         for i in range(nrand):
             bd = ctx.rng.choice([16, 24, 32]); ch = ctx.rng.randint(1, 4); n = ctx.rng.randint(0, 40)
@@ -248,13 +420,15 @@ class C18(Spec):
             data = make_file(*fp)
             N = fp[2]
             for _ in range(12 if ctx.quick else 80):
-                ops = []
+                ops = [("g", ctx.rng.choice(sizes))]
                 for _ in range(ctx.rng.randint(2, 6)):
                     k = ctx.rng.random()
                     if k < 0.35:
                         ops.append(("s", ctx.rng.choice([0, 500, 5000, N - 9000, N - 1, -3, -8193, -9000]), ctx.rng.choice([0, 1, 2])))
-                    elif k < 0.75:
+                    elif k < 0.65:
                         ops.append(("r", ctx.rng.choice(sizes + [1, 100])))
+                    elif k < 0.8:
+                        ops.append(("n", 0))
                     else:
                         ops.append(("i", ctx.rng.choice(sizes)))
                     ops.append(("t",))
@@ -262,6 +436,7 @@ class C18(Spec):
                 ctx.count("large-file-case")
         for i in range(0, len(batch), 20000):
             self._compare(ctx, driver, batch[i:i + 20000])
+        self._ragged(ctx, driver)
 
     def search(self, ctx, deep):
         # the predicate already ran on every correspondence case; when something broke (or thorough),
@@ -270,9 +445,9 @@ class C18(Spec):
             return
         for fp in self.files(ctx):
             data = make_file(*fp)
-            alpha = alphabet(fp[2])
+            alpha = alphabet(fp[2]) + GEN_ALPHA
             for ops in itertools.product(alpha, repeat=2):
-                ops = tuple(ops) + (("t",),)
+                ops = GEN_PREFIX + tuple(ops) + (("t",),)
                 real = Real(data, fp[0], fp[1], fp[2])
                 outs = [real.op(o) for o in ops]
                 ctx.case(("search", fp, ops), True)
@@ -282,13 +457,28 @@ class C18(Spec):
 SPEC = C18()
 
 REGISTRY = dict(
-    text="FULL: Lean theorems (Earverif.Cursor.ops_refine, seek_spec, read_spec, tell_spec, iter_refines, "
-    "specIter_tiles) prove for every operation sequence, file size and cursor that the byte-level model of "
-    "Bw64Reader.seek/tell/read/iter_sample_blocks refines a list-plus-cursor specification; the model is tied to "
-    "the code on every run by driving the real reader and the Lean model with the same generated operation "
-    "sequences (exhaustive over a boundary alphabet up to a length bound, then random) and diffing outputs.",
+    text="FULL: Lean theorems (Earverif.Cursor.ops_refine, gops_refine, seek_spec, read_spec, tell_spec, iter_refines, "
+    "gnext_refines, specIter_tiles, iter_model_tiles) prove for every operation sequence, file size and cursor that the "
+    "byte-level model of Bw64Reader.seek/tell/read/iter_sample_blocks refines a list-plus-cursor specification: "
+    "ops_refine for seek/tell/read/eager block iteration, gops_refine additionally for any number of lazily consumed "
+    "generators (iter_sample_blocks objects) whose next() calls are interleaved with every other operation (a next() "
+    "yields frames [cursor, min(cursor+bs, N)) of the cursor at that moment or stops for good at N; drain_eq_iter: a for "
+    "loop over a fresh generator is the eager iteration); iter_model_tiles composes ops_refine with specIter_tiles into a "
+    "statement about the MODEL run: block iteration from cursor c leaves the buffer at the end of the data and returns "
+    "byte ranges that are a gap-free, overlap-free chain of non-empty frame ranges from c to N, each at most bs long. "
+    "The model is tied to the code on every run by driving the real reader and the Lean model with the same generated "
+    "operation sequences (exhaustive over a boundary alphabet incl. next() on two generators up to a length bound, then "
+    "random with generators created at random points) and diffing outputs; the model's file constants are read from "
+    "the opened real reader (data position/size, blockAlignment, file length).",
     note="Trusted: Lean kernel, hand transliteration of the reader's cursor arithmetic + correspondence harness, "
-    "BytesIO semantics as modelled. Quantifier limits: read(n>=0), iter block size >= 1 (0 hangs in the real code).",
-    technique="Lean 4 refinement proof (induction over operation sequences) + differential correspondence with the real reader",
+    "BytesIO semantics as modelled. Quantifier limits: read(n>=0); exhausting iteration needs block size >= 1 (0 hangs "
+    "in the real code; next() on a block-size-0 generator is inside). Hypothesis WF of every theorem: data chunk size = "
+    "blockAlign * N (whole frames, WF.hsize) and the chunk lies inside the file; both hold for every writer-made file "
+    "(proved: C09_samples_roundtrip). EXCLUDED POINT: a hand-made file whose data chunk is ragged (size = A*N + r) is "
+    "accepted by the reader with len = N, but a seek that lands on the chunk end leaves the buffer between frames and "
+    "the next read returns bytes straddling two frames (theorem ragged_not_cursor; the model still matches the real "
+    "reader there byte for byte -- separate counted stream 'ragged:*' in the evidence, not part of the property).",
+    technique="Lean 4 refinement proof (induction over operation sequences, generator table as state) + differential "
+    "correspondence with the real reader",
     design_ref="DESIGN.md section 4, C18",
 )
